@@ -77,6 +77,12 @@ def alias_cases():
         if kind == "l": N = {"p": "src2/p", "k": "l", "target": "nowhere"}
         extra_ = [F("src2/p/inner", 5, 3)] if kind == "d" else []
         add("bystander-behind-link-%s" % kind, base + [D("src2"), N] + extra_ + [D("dst"), D("dst/src2"), L("dst/src2/p", "../../other/keep")], ["src2", "dst"], ["other/keep"], True)
+    # a top-level source that is a link to a directory is copied as a link; what the link's text happens to designate inside the
+    # destination (dst/real) is a bystander and must not receive the directory's children
+    add("bystander-named-like-toplevel-dirlink-target", base + [D("real"), F("real/f", 30, 21), L("ld", "real"), D("dst"), D("dst/real"), F("dst/real/f", 40, 22)],
+        ["ld", "dst"], ["dst/real/f", "real/f"], True)
+    add("bystander-named-like-toplevel-dirlink-target-T", base + [D("real"), F("real/f", 30, 21), L("ld", "real"), D("dst"), D("dst/real"), F("dst/real/f", 40, 22)],
+        ["-T", "ld", "dst/newlink"], ["dst/real/f", "real/f"], True)
     add("link-dot-slash", base + [F("f"), L("l", "f")], ["l", "./l"], ["l", "f"])
     add("link-in-T-respelled-dir", [D("d"), F("d/f"), L("d/l", "f"), D("other"), F("other/keep", 99, 13)], ["-T", "d", "./d"], ["d/f", "d/l"], True)
     add("two-sources-one-alias", base + [F("f"), D("dst"), L("dst/f", "../f")], ["other/keep", "f", "dst"], ["f", "other/keep"])
